@@ -2,6 +2,7 @@ package msgpack
 
 import (
 	"bytes"
+	"math"
 
 	"github.com/vmihailenco/msgpack/v5"
 	msgpackCodes "github.com/vmihailenco/msgpack/v5/msgpcode"
@@ -102,7 +103,7 @@ func unmarshalPrimitive(dec *msgpack.Decoder, ty cty.Type, path cty.Path) (cty.V
 			return cty.NumberUIntVal(rv), nil
 		case msgpackCodes.Float, msgpackCodes.Double:
 			rv, err := dec.DecodeFloat64()
-			if err != nil {
+			if err != nil || math.IsNaN(rv) {
 				return cty.DynamicVal, path.NewErrorf("number is required")
 			}
 			return cty.NumberFloatVal(rv), nil
